@@ -409,7 +409,7 @@ func (fr *Frame) ghostPatterns() []string {
 	walk = func(e Expr) {
 		switch x := e.(type) {
 		case *ECall:
-			if (x.Fn == "called" || x.Fn == "ret" || x.Fn == "ret1" || x.Fn == "ret2" || x.Fn == "ret3" || x.Fn == "first" || x.Fn == "count" || x.Fn == "counttrue0" || x.Fn == "counttrue1" || x.Fn == "countnil0" || x.Fn == "countnil1" || x.Fn == "countnil2" || x.Fn == "allocsince") && len(x.Args) >= 1 {
+			if (x.Fn == "called" || x.Fn == "ret" || x.Fn == "ret1" || x.Fn == "ret2" || x.Fn == "ret3" || x.Fn == "first" || x.Fn == "count" || x.Fn == "counttrue0" || x.Fn == "counttrue1" || x.Fn == "countnil0" || x.Fn == "countnil1" || x.Fn == "countnil2" || x.Fn == "allocsince" || x.Fn == "allocbefore") && len(x.Args) >= 1 {
 				if s, ok := x.Args[0].(*EStr); ok && !seen[s.V] {
 					seen[s.V] = true
 					out = append(out, s.V)
@@ -550,7 +550,7 @@ func (fr *Frame) applyContract(st *State, fc *FuncContract, callee *ssa.Function
 	return resultVal(u, sig, res)
 }
 
-var ghostRe = regexp.MustCompile(`\b(called|ret|ret1|ret2|ret3|first|count|counttrue0|counttrue1|countnil0|countnil1|countnil2|allocsince)\("`)
+var ghostRe = regexp.MustCompile(`\b(called|ret|ret1|ret2|ret3|first|count|counttrue0|counttrue1|countnil0|countnil1|countnil2|allocsince|allocbefore)\("`)
 
 func shortName(n string) string {
 	if i := strings.LastIndex(n, "/"); i >= 0 {
